@@ -1,16 +1,69 @@
 """C15 — each attempt is a fresh process with the exact argv, directory and environment."""
+import json
 import vlib
 from props import common, mix
 
 THM = "NextestModel.Thm.C15"
 GEN = []
-TRUSTED = ["model: Model/Command (argv shape, order of environment writes; std::process::Command::env = last write wins)",
-           "process-group leadership, /dev/null stdin, cwd and execve argv fidelity (incl. the double-spawn re-exec) are OS effects observed end-to-end through the scripted processes' own records"]
-ASSUMPTIONS = ["PARTIAL: `shell_words::split ∘ join = id` (what makes double-spawn transparent) is not yet proved; it is exercised end-to-end with hostile test names (double-spawn is on by default)"]
+CHECK_MODULES = ["NextestModel.Lemmas.Shell", "NextestModel.Model.Shell", "NextestModel.Model.Command"]
+TRUSTED = ["model: Model/Command (argv shape, create_command with and without the double-spawn launcher, order of the environment writes of TestCommand::new, EnvironmentMap::apply_env; std::process::Command::env = last write wins) and Model/Shell (shell_words 1.1.0 split/quote/join read from its source) — both corresponded in-process",
+           "the guarded hook TestInstance::verif_make_command (calls make_command and returns get_program/get_args/get_envs/get_current_dir)",
+           "the launcher's re-parse (DoubleSpawnOpts::exec: shell_words::split of its single joined argument, then exec) is replayed by the harness in-process; the real launcher, process-group leadership, /dev/null stdin, cwd, the variables written in run_test_inner (__NEXTEST_ATTEMPT, NEXTEST_RUN_ID, slots, setup-script variables) and execve fidelity are observed end-to-end through the scripted processes' own records"]
+ASSUMPTIONS = ["execve passes argv and envp unchanged (NUL bytes cannot occur); clap hands the two positional arguments after `--` to DoubleSpawnOpts unchanged (exercised end-to-end with hostile names)"]
+
+
+def describe_cmd(m):
+    f = m["req"].split(" ")
+    def uh(x):
+        try: return bytes.fromhex(x).decode("utf-8", "replace") if x not in ("-", ".") else ""
+        except ValueError: return x
+    ia, ma = m["impl"].split(" "), m["model"].split(" ")
+    name = uh(f[4])
+    parts = []
+    labels = ["spawned argv", "argv of the process that finally runs", "working directory", "environment"]
+    for lab, a, b in zip(labels, ia, ma):
+        if a == b: continue
+        if lab == "environment":
+            probes = f[12].split(",")
+            for k, x, y in zip(probes, a.split(","), b.split(",")):
+                if x != y:
+                    parts.append(f"{uh(k)}={uh(x) if x != '~' else '<unset>'!r}, the property says {uh(y) if y != '~' else '<unset>'!r}")
+        else:
+            parts.append(f"{lab} {[uh(w) for w in a.split(',')]!r}, the property says {[uh(w) for w in b.split(',')]!r}")
+    return f"make_command for test {name!r} (double-spawn={f[1]}, ignored={f[5]}): " + "; ".join(parts)
+
+
+def run_p(seed, tier, replay=None):
+    n = 400 if tier == "quick" else 20000
+    streams = [("p_cmd", [seed, n])]
+    if replay:
+        rp = json.load(open(replay))
+        if "stream" in rp: streams = [tuple(rp["stream"])]
+    r = common.run_streams(streams)
+    items = [([b, args, idx], req, impl) for (b, args, idx, req, impl) in r.cases]
+    mism, monf = common.compare(items, None)
+    violations = []
+    for m in monf:
+        violations.append({"what": f"shell_words::split(join(words)) != words on the implementation: {m['req']} -> {m['impl']}",
+                           "payload": {"stream": m["origin"][:2], "line_index": m["origin"][2], "request": m["req"], "impl": m["impl"]}, "kind": "shell-roundtrip"})
+    detail = []
+    for m in mism:
+        k = m["req"].split(" ", 1)[0]
+        if k == "cmd" and m["impl"].split(" ")[1:] != m["model"].split(" ")[1:]:
+            violations.append({"what": describe_cmd(m), "payload": {"stream": m["origin"][:2], "line_index": m["origin"][2], "request": m["req"], "impl": m["impl"], "spec": m["model"]}, "kind": "cmd"})
+        else:
+            # only the intermediate launcher command line differs (a different but possibly equivalent quoting), or
+            # shell_words itself differs from the model of it: the correspondence is broken; a failing round trip (above) is the violation
+            detail.append({"stream": m["origin"][:2], "line_index": m["origin"][2], "request": m["req"], "impl": m["impl"], "model": m["model"]})
+    cmds = [q for _, q, _ in items if q.startswith("cmd ")]
+    samples = [f"{q[:160]}  =>  {i[:120]}" for (_, q, i) in items[::173]][:8]
+    return {"evaluations": len(items), "distinct_nontrivial": len(set(q for _, q, _ in items)),
+            "rule": "shell_words join/split on adversarial word lists and raw strings (distinct requests); make_command cases with hostile names, extra args, inherited env and Cargo [env] (with/without force) colliding with nextest's variables, double-spawn on/off",
+            "samples": samples, "traces": len(cmds), "dist": r.dist, "violations": violations, "broken": r.broken,
+            "impl_failures": r.impl_failures, "detail_mismatches": detail}
 
 
 def run(seed, tier, replay=None):
-    result = {"evaluations": 0, "distinct_nontrivial": 0, "rule": "", "samples": [], "traces": 0, "dist": {}, "violations": [], "broken": []}
-    return mix.merge(result, mix.check([mix.mon_argv_env], seed, tier, 8, 60))
+    return mix.merge(run_p(seed, tier, replay), mix.check([mix.mon_argv_env], seed, tier, 8, 60))
 
 KNOWN_MATCHERS = {}
